@@ -202,7 +202,9 @@ def oracle(job, ob):
     if pl and info.get("poll_k"):
         k = info["poll_k"]
         ncl = pl["ret"]["ncalls"]
-        if ncl >= 1000 or pl["complete_after"] is not True:
+        if ncl >= 1000 and not fixed and not (tmax >= 0 and pl["ret"]["T"] > tmax):
+            notes_cap = True       # a Gillespie run with more events than the cap of this driver: nothing to judge
+        elif ncl >= 1000 or pl["complete_after"] is not True:
             bad.append(("is-complete-after-iterate_n", "driven by `while not is_complete(): iterate_n(%d)`: is_complete() is still %r after %d calls (clock %r, t_max %r)"
                         % (k, pl["complete_after"], ncl, pl["ret"]["T"], tmax), {"calls": ncl, "is_complete": pl["complete_after"]}, {"is_complete": True}))
         elif fixed and tmax >= 0:
@@ -212,7 +214,7 @@ def oracle(job, ob):
             if not okc:
                 bad.append(("completion-step:iterate_n", "driven by `while not is_complete(): iterate_n(%d)`: %d calls were made, the first step beyond t_max is step %d (%d calls)"
                             % (k, ncl, n_exact, want), ncl, want))
-        if first_false is not None and not manual and ncl < 1000 and pl["hash"] != out["hash"]:
+        if first_false is not None and not manual and ncl < 1000 and pl["complete_after"] is True and pl["hash"] != out["hash"]:
             bad.append(("records:iterate_n", "the run driven by iterate_n(%d) + is_complete() does not record what the step-by-step run records" % k, pl["hash"], out["hash"]))
     if tmax > 0 and not close(ob["progress"], frac(100) * frac(T[-1]) / frac(tmax), rel=1e-9):
         bad.append(("progress", "get_progress() is not 100*t/t_max", ob["progress"], float(100 * T[-1] / tmax)))
